@@ -397,9 +397,9 @@ func genGet(t *rapid.T) Get {
 
 // Work is a client workload over the HTTP channel, with Close at some point.
 type Work struct {
-	Ops        []string `json:"ops"`         // call notify batch callerr callnf
-	CloseAfter int      `json:"close_after"` // number of operations started before Close (they are all in flight when Close runs if Hold)
-	Hold       bool     `json:"hold"`        // the HTTP client holds every response until Close has begun
+	Ops        []string `json:"ops"`               // call notify batch callerr callnf
+	CloseAfter int      `json:"close_after"`       // number of operations started before Close (they are all in flight when Close runs if Hold)
+	Hold       bool     `json:"hold"`              // the HTTP client holds every response until Close has begun
 	Fail500    bool     `json:"fail500,omitempty"` // finally one more call is answered by the HTTP endpoint with status 500
 }
 
